@@ -819,6 +819,10 @@ class CallMixin:
             return self.isinstance_term(x, c.name)
         table = {"str": TStr, "int": (TInt, TBool), "bool": TBool, "bytes": TBytes, "list": (TSeq, TLSet), "set": TSet,
                  "dict": (TMap, TRec), "tuple": TTuple}
+        if c.kind == "builtin" and isinstance(ty, TOpaque):
+            # an arbitrary value may well be a str / int / dict ...: uninterpreted predicate of the value (never a constant)
+            (srt,) = ty.comps()
+            return z3.Function("isinst!%s!%s" % (c.name, srt), srt, z3.BoolSort())(x.t)
         if c.kind == "builtin" and c.name in table:
             return z3.BoolVal(isinstance(ty, table[c.name]))
         if c.kind == "class":
